@@ -31,6 +31,7 @@ structure Outc where
 structure DSt where
   mode : String := "select"
   d : Daemon Unit := {}
+  parkHint : Hint := .none      -- pollthr: the timeout class poll() was last called with
 
 def splitList (s : String) : List String :=
   if s == "-" || s == "" then [] else s.splitOn ","
@@ -97,13 +98,19 @@ def b01 (b : Bool) : String := if b then "1" else "0"
 def showHint : Hint → String
   | .none => "none" | .zero => "0" | .deadline => "some"
 
-def showState (d : Daemon Unit) (epoll : Bool) : String :=
+def showStateH (d : Daemon Unit) (epoll : Bool) (hint : Option Hint) : String :=
   let fs := getFdset d
   let srt := fun (l : List Nat) => l.mergeSort (fun a b => a ≤ b)   -- fd_sets are sets
   let fd := if epoll then "ep" else s!"r:{showIds (srt fs.r)};w:{showIds (srt fs.w)};e:{showIds (srt fs.e)}"
   s!"A={showConns d.conns} S={showConns d.susp} C={showConns d.cleanup} N={showIds (d.newc.map (·.id))} E={showIds d.eready} " ++
-  s!"dap={b01 d.dap} res={b01 d.resuming} new={b01 d.haveNew} fdset={fd} hint={showHint (getTimeout d)}" ++
+  s!"dap={b01 d.dap} res={b01 d.resuming} new={b01 d.haveNew} fdset={fd} hint={showHint (hint.getD (getTimeout d))}" ++
   (match d.fault with | some f => s!" fault={f.replace " " "_"}" | none => "")
+
+def showState (d : Daemon Unit) (epoll : Bool) : String := showStateH d epoll none
+
+/-- in the poll-thread mode the hint is the timeout the thread went to sleep with -/
+def showSt (s : DSt) : String :=
+  showStateH s.d (s.mode == "epoll") (if s.mode == "pollthr" then some s.parkHint else none)
 
 def kvOf (ws : List String) (key : String) : Option String :=
   ws.findSome? fun w => if w.startsWith (key ++ "=") then some ((w.drop (key.length + 1)).toString) else none
@@ -119,7 +126,7 @@ def parseEvs (s : String) : Option (List EpEv) :=
 def stepLine (s : DSt) (ws : List String) : DSt × List String :=
   match ws with
   | "mode" :: m :: rest =>
-    if m ∈ ["select", "poll", "epoll"] then
+    if m ∈ ["select", "poll", "epoll", "pollthr"] then
       let sus := (kvOf rest "suspend").getD "1" != "0"
       ({ mode := m, d := { epoll := m == "epoll", allowSuspend := sus } }, ["ok"])
     else (s, ["bad-op"])
@@ -130,38 +137,40 @@ def stepLine (s : DSt) (ws : List String) : DSt × List String :=
       let loc0 : Local Unit := { st := stInit, eli := .read, rdReady := false, wrReady := false, bufSpace := true, w := () }
       let conn : Conn Unit := { id := c, nonblock := (nb != 0), tmo := tmo, loc := loc0 }
       let d := addConn s.d conn
-      ({ s with d := d }, ["state " ++ showState d (s.mode == "epoll")])
+      ({ s with d := d }, ["state " ++ showSt { s with d := d }])
     | _, _, _ => (s, ["bad-op"])
   | ["resume", c] =>
     match c.toNat? with
     | some c =>
       if (findConn s.d.susp c).isNone then (s, ["bad-op"]) else
       let d := resumeReq s.d c
-      ({ s with d := d }, ["state " ++ showState d (s.mode == "epoll")])
+      ({ s with d := d }, ["state " ++ showSt { s with d := d }])
     | none => (s, ["bad-op"])
-  | ["state"] => (s, ["state " ++ showState s.d (s.mode == "epoll")])
+  | ["state"] => (s, ["state " ++ showSt s])
   | "round" :: rest =>
     match ((kvOf rest "out").getD "-" |> splitList).mapM parseOutc with
     | none => (s, ["bad-op"])
     | some tbl =>
       let ops := opsOf tbl
       let d0 := resetK s.d
-      let res : Option (Daemon Unit) :=
+      let res : Option (Daemon Unit × Hint) :=
         if s.mode == "epoll" then
           match parseEvs ((kvOf rest "ev").getD "-") with
-          | some evs => some (epollRound ops d0 evs)
+          | some evs => some (epollRound ops d0 evs, .none)
           | none => none
         else
           match natList ((kvOf rest "r").getD "-"), natList ((kvOf rest "w").getD "-"), natList ((kvOf rest "e").getD "-") with
           | some r, some w, some e =>
             let rdy : Ready := { r := r, w := w, e := e }
-            some (if s.mode == "poll" then pollAll ops d0 rdy else runFromSelect ops d0 rdy)
+            some (if s.mode == "pollthr" then pollThreadCycle ops d0 rdy
+                  else if s.mode == "poll" then (pollAll ops d0 rdy, .none) else (runFromSelect ops d0 rdy, .none))
           | _, _, _ => none
       match res with
       | none => (s, ["bad-op"])
-      | some d =>
+      | some (d, h) =>
         let calls := ",".intercalate (d.log.reverse.map showEv)
-        ({ s with d := d }, [s!"round calls=[{calls}] " ++ showState d (s.mode == "epoll")])
+        let s' := { s with d := d, parkHint := h }
+        (s', [s!"round calls=[{calls}] " ++ showSt s'])
   | _ => (s, ["bad-op"])
 
 def main : IO Unit := Driver.runEngine ({} : DSt) stepLine
